@@ -154,6 +154,7 @@ func run(c *vf.Ctx) {
 	c.Assume("natural collation is asserted only where Wikipedia's definition and facette/natsort (both cited by sorting.md) agree: empty strings, digit runs equal in value but not in text, and prefix runs followed by a non-smaller digit are undetermined")
 	c.Assume("the DSL functions sort_by_key and sort_by_value named by the property do not exist in this tree (`mlr help function sort_by_key`: not found); their role is covered by sort(map) / sort(map, \"v...\") and by user comparator functions on keys / values")
 	c.Assume("user comparator functions are exercised with `a <=> b` / `b <=> a` only on homogeneous arrays (all numbers or all non-empty strings) and with a text-length comparator (strlen(string(x))) on all arrays, where their meaning is documented; on mixed arrays only the permutation predicate is asserted")
+	c.Assume("user comparator functions returning non-integers (a-b, b-a, (a-b)*0.5, (a-b)/100, (y-x)*0.25, av-bv, ... ; help: 'returning < 0, 0, or > 0') are exercised on numbers-only arrays / maps by value over {1, 1.125, 1.25, 0.5, 2, -3, 10, 1.0}: all values and differences are exact in binary, so the sign of every result is the sign of a-b")
 	c.Assume("map keys that are hex/inf/nan spellings are excluded from the map-by-key enumeration (whether such a key counts as a number is not documented)")
 	c.Assume("comparator totality is asserted for the lexical, case-folded and numeric comparators on values exactly representable as doubles, NaN excluded; the natural comparators and the DSL <=> operator are measured and reported, not asserted")
 	c.Assume("top: rows beyond the number of available values (void fillers) are not asserted")
